@@ -1112,7 +1112,10 @@ def hughes(C: np.ndarray) -> np.ndarray:
     Q[:, 2] = np.array(C[:, 2, 0]-C[:, 0, 2])
     Q[:, 3] = np.array(C[:, 0, 1]-C[:, 1, 0])
     Q[:, 1:] /= 4.0*Q_w[:, None]
-    return Q
+    pure = np.isclose(Q[:, 0], 0.0)             # trace = -1: q_w = 0 (Pure Quaternion), as in the single-matrix branch
+    Q[pure, 1:] = np.sqrt((1.0 + np.diagonal(C[pure], axis1=1, axis2=2))/2.0)
+    Q[Q[:, 0] > 0, 1:] *= -1
+    return Q / np.linalg.norm(Q, axis=1)[:, None]
 
 def sarabandi(dcm: np.ndarray, eta: float = 0.0) -> np.ndarray:
     """
